@@ -66,5 +66,14 @@ func init() {
 			bigBases = append(bigBases, vToMap(CrashSpec{Datasets: vDS, IDs: vIDs, Pre: pre, Hist: h, Kind: "store"}))
 		}
 		engine.RunCrash(r, "c04-large-batch", []string{"worker", "crash-store"}, bigBases, 0)
+		// "every acknowledged batch / transaction is fully present" also has to hold for writers that overlap in time:
+		// two of the C05 scenarios, judged by the same final-state oracle (all indexes and read APIs agree with some
+		// order of the acknowledged operations)
+		for _, sc := range c05Scenarios() {
+			if sc.Name == "S12-rejected-batch-vs-writers-of-new-ids" || sc.Name == "S15-txn-waiting-for-a-lock-vs-batch-on-the-same-entity" {
+				sc.Name = "C04-" + sc.Name
+				engine.RunSched(r, engine.SchedSpec{Name: sc.Name, WorkerArgs: []string{"worker", "sched-store"}, Scenario: sc, Bound: 2, Horizon: 1500, BudgetS: 60})
+			}
+		}
 	})
 }
